@@ -613,13 +613,19 @@ func c02One(c *fw.Ctx, id string, i int) {
 	}
 	hist := c02History(r, kind.noDup)
 
-	// dst side
+	// dst side; every fifth source is handed over without its final line feed (the text the edits are
+	// judged against is gofmt's, which ends every file with one)
+	parsed := canon
+	if i%5 == 4 {
+		parsed = strings.TrimSuffix(canon, "\n")
+		c.Count("sources_without_final_newline", 1)
+	}
 	var f *dst.File
 	var err error
 	if kind.imports {
-		f, err = decorator.NewDecoratorWithImports(token.NewFileSet(), "x/self", goast.WithResolver(pkNames)).Parse(canon)
+		f, err = decorator.NewDecoratorWithImports(token.NewFileSet(), "x/self", goast.WithResolver(pkNames)).Parse(parsed)
 	} else {
-		f, err = decorator.Parse(canon)
+		f, err = decorator.Parse(parsed)
 	}
 	if err != nil {
 		c.Violate("parse-failed", "parse-failed", id+": "+err.Error(), canon)
